@@ -23,7 +23,7 @@ pub fn meta() -> PropMeta {
         nontrivial_floor: 0.3,
         run,
         replay,
-        crashy: false,
+        crashy: true,
     }
 }
 
@@ -465,7 +465,7 @@ fn run(ctx: &ShardCtx, rep: &mut Report) {
             return;
         }
     }
-    pt_run(ctx, rep, "lifecycle", ctx.budget(20_000, 1_000_000), case_strategy(), |c, o| case(ctx, c, o));
+    pt_run(ctx, rep, "lifecycle", ctx.budget(300_000, 8_000_000), case_strategy(), |c, o| case(ctx, c, o));
 }
 
 fn replay(_variant: &str, case_json: &Json) -> Result<(), String> {
